@@ -997,9 +997,11 @@ class ProgramRun:
             if sec:
                 raise lg.StillWaiting()
         code = None
+        from . import patching
+        sleep_patch = patching.patch_everywhere(orig, nosleep, home=time, name='sleep')     # also jug's own `from time import sleep` globals
         try:
             with jugrun.quiet() as (out, err):
-                time.sleep = nosleep
+                sleep_patch.__enter__()
                 try:
                     with lg.time_limit(lg.EXEC_TIME_LIMIT):
                         jug.jug.main(list(argv))
@@ -1008,10 +1010,12 @@ class ProgramRun:
                     code = 0 if e.code in (None, 0) else (e.code if isinstance(e.code, int) else 1)
                 except lg.StillWaiting:
                     code = 'waiting'
+                except lg.ExecTimeout as e:
+                    code = ('raised', 'ExecTimeout', str(e)[:200])
                 except Exception as e:
                     code = ('raised', type(e).__name__, str(e)[:200])
         finally:
-            time.sleep = orig
+            sleep_patch.__exit__(None, None, None)
             sys.argv[:] = sargv
             sys.path[:] = path
             try:
